@@ -337,12 +337,23 @@ def _run(ctx):
     # dedicated case of a recorded finding: organic fertiliser "H" on the last rotation entry with automatic sowing + fertilisation
     cases += [make_case(rnd, n + nskip, force_sw=3, org_p=1.0, lastskip=True)]
     rc, cases, err, ex = run_cases(ctx, cases, "c16_", extreme=True)
-    # second pass (boundary of the rule that moves a passed fixed sowing date): fixed sowing + automatic harvest; the next
-    # entry's sowing date is placed -2, 1, 2, 3, 4, 5 days after the harvest the first pass decided by its condition
+    more = second_pass_cases(ctx, rnd, cases, 60 if ctx.thorough else 8) if rc == 0 else []
+    if more:
+        rc2, more, err2, _ = run_cases(ctx, more, "c16b_", extreme=True)
+        if rc2 != 0:
+            rc, err = rc2, err2
+        cases = cases + more
+    _cache["run"] = (rc, cases, err, ex)
+    return _cache["run"]
+
+
+def second_pass_cases(ctx, rnd, cases, limit):
+    """boundary of the rule that moves a passed fixed sowing date: from first-pass runs with fixed sowing + automatic harvest, new
+    cases whose next entry's sowing date lies -2, 1, 2, 3, 4, 5 days after the harvest the first pass decided by its condition"""
     import copy
     more = []
     for cs in cases:
-        if rc != 0 or cs["sw"][0] or not cs["sw"][3] or len(more) >= (60 if ctx.thorough else 8):
+        if cs["sw"][0] or not cs["sw"][3] or len(more) >= limit or not cs.get("hdec"):
             continue
         trig = [r for r in cs["hdec"] if r["e"][0] == 0 and r["e"][2] == r["zeit"] and r["akf"] >= 1]
         if not trig:
@@ -368,15 +379,27 @@ def _run(ctx):
         rows[code] = row
         crops.append((code, sow, har, {"w1": w1, "w2": w2, "latest": har + datetime.timedelta(days=10), "fixed_sow": False, "fixed_har": False,
                                        "org": None, "skip": False, "par": dict(automan_row.last)}))
-        nc["crops"], nc["rows"], nc["second_pass"] = crops, rows, {"harvest": h, "offset": off}
+        nc["crops"], nc["rows"], nc["second_pass"] = crops, rows, {"harvest": h, "offset": off, "entry": k + 1}
         more.append(nc)
+    return more
+
+
+def hs_run(ctx):
+    """fixed sowing dates + automatic harvest (used by C10): first pass, then the next sowing date -2..5 days after a condition harvest"""
+    if "hs" in _cache:
+        return _cache["hs"]
+    rnd = random.Random(ctx.seed * 13 + 2016)
+    n = 160 if ctx.thorough else 14
+    cases = [make_case(rnd, i, force_sw=rnd.choice([8, 8, 12, 10, 14]), org_p=0.0) for i in range(n)]
+    rc, cases, err, ex = run_cases(ctx, cases, "c10hs_")
+    more = second_pass_cases(ctx, rnd, cases, 48 if ctx.thorough else 6) if rc == 0 else []
     if more:
-        rc2, more, err2, _ = run_cases(ctx, more, "c16b_", extreme=True)
+        rc2, more, err2, _ = run_cases(ctx, more, "c10hsb_")
         if rc2 != 0:
             rc, err = rc2, err2
         cases = cases + more
-    _cache["run"] = (rc, cases, err, ex)
-    return _cache["run"]
+    _cache["hs"] = (rc, cases, err, ex)
+    return _cache["hs"]
 
 
 def org_run(ctx):
